@@ -122,10 +122,11 @@ func LooksLikeModbusTCP(data []byte, allowUnSupportedFunctionCodes bool) (expect
 		return 0, ErrIsNotTCPPacket
 	}
 	pduLen := binary.BigEndian.Uint16(data[4:6]) // number of bytes in the message to follow
-	if pduLen < 3 {                              // every request is more than 2 bytes of PDU
+	functionCode := data[7]                      // function code
+	// every request is more than 2 bytes of PDU, except Read Server ID (FC17) request which is exactly unit id + function code
+	if pduLen < 3 && !(pduLen == 2 && functionCode == FunctionReadServerID) {
 		return 0, ErrIsNotTCPPacket
 	}
-	functionCode := data[7] // function code
 	if functionCode == 0 {
 		return 0, ErrIsNotTCPPacket
 	}
